@@ -368,7 +368,9 @@ class JnpWherePlugin(PrimitiveLeafPlugin):
                 return value
 
         dtype_enum = _dtype_to_ir(target_dtype, ctx.builder.enable_double_precision)
-        if value.const_value is not None:
+        # only a true initializer can be retyped in place: inside Loop / If / function bodies constants are
+        # Constant nodes whose payload would keep the old dtype
+        if value.const_value is not None and value.producer() is None:
             arr = const_value_to_numpy(value)
             if arr is not None and arr.dtype != target_dtype:
                 arr = arr.astype(target_dtype, copy=False)
